@@ -105,3 +105,11 @@ Theorem c15_visitor_item_without_reference_refuted :
   exists s n i s', reachable s /\ owner s !! n = Some i /\ cnt s i = 1%Z /\ step s (EvEvict n) = Some s' /\ cnt s' i = 0%Z.
 Proof. exact RefcountVisit.unheld_item_released_under_visitor. Qed.
 Print Assumptions c15_visitor_item_without_reference_refuted.
+
+(* the known finding copyto-destination-uncounted, formally: if a node may come to own an item without the counter moving
+   (the destination store of CopyTo has no callbacks), "every item reachable from an open collection has a positive
+   count" fails -- load, share, let the source's visit leave its node *)
+Theorem c15_copyto_destination_uncounted_refuted :
+  ~ (forall s n i, reachable'' s -> owner s !! n = Some i -> (1 <= cnt s i)%Z).
+Proof. exact RefcountVisit.copyto_uncounted_refuted. Qed.
+Print Assumptions c15_copyto_destination_uncounted_refuted.
